@@ -323,11 +323,53 @@ func dumpPartExt(p *scheduler.PartitionContext) map[string]interface{} {
 	if err != nil {
 		panic(err)
 	}
-	set, err := json.Marshal([]interface{}{p.GetNodeSortingPolicyType().String(), weights, p.IsPreemptionEnabled(), p.IsQuotaPreemptionEnabled(), string(rules)})
-	if err != nil {
-		panic(err)
+	// everything observable about the partition besides its queues: node sorting policy (type and resource weights),
+	// preemption flags, the placement rules in force (names, and the whole rule DAOs as one canonical text)
+	names := []string{}
+	for _, r := range p.GetPlacementRules() {
+		names = append(names, r.Name)
 	}
-	return map[string]interface{}{"name": p.Name, "queues": qs, "settings": string(set)}
+	set := map[string]interface{}{"sort": p.GetNodeSortingPolicyType().String(), "weights": weights, "preempt": p.IsPreemptionEnabled(),
+		"quota": p.IsQuotaPreemptionEnabled(), "ruleNames": names, "rules": string(rules)}
+	prules, modelled := rulesFromDAO(p.GetPlacementRules())
+	return map[string]interface{}{"name": p.Name, "queues": qs, "settings": set, "prules": prules, "prulesModelled": modelled}
+}
+
+// the placement rules in force in the form the placement model reads (name, value, create, parent); the recovery rule
+// the manager always appends is left out (the model appends it itself). modelled = no rule carries a filter
+func rulesFromDAO(rules []*dao.RuleDAO) ([]interface{}, bool) {
+	out := []interface{}{}
+	modelled := true
+	var conv func(r *dao.RuleDAO) map[string]interface{}
+	conv = func(r *dao.RuleDAO) map[string]interface{} {
+		m := map[string]interface{}{"name": r.Name, "create": r.Parameters["create"] == "true"}
+		switch r.Name {
+		case "fixed":
+			m["value"] = r.Parameters["queue"]
+		case "tag":
+			m["value"] = r.Parameters["tagName"]
+		case "provided", "user":
+		default:
+			modelled = false
+		}
+		if r.Filter != nil {
+			modelled = false
+		}
+		if r.ParentRule != nil {
+			m["parent"] = conv(r.ParentRule)
+		}
+		return m
+	}
+	for i, r := range rules {
+		if i == len(rules)-1 && r.Name == "recovery" {
+			break
+		}
+		out = append(out, conv(r))
+	}
+	if len(rules) == 0 || rules[len(rules)-1].Name != "recovery" {
+		modelled = false
+	}
+	return out, modelled
 }
 
 func (d *reloadDrv) dumpParts() []interface{} {
@@ -419,6 +461,21 @@ func (d *reloadDrv) applyWithTap(op map[string]interface{}, tap func([]map[strin
 		d.core.settle()
 		msgs := d.core.s.h.take()
 		line["msgs"] = msgs
+		if name == "app-add" {
+			// the answer to the submission: accepted into which queue, or rejected with which text
+			id := jsonStr(op["id"])
+			placed := map[string]interface{}{"acc": false, "queue": "", "reason": ""}
+			if app := d.core.s.part.GetApplication(id); app != nil {
+				placed["acc"] = true
+				placed["queue"] = app.GetQueuePath()
+			}
+			for _, m := range msgs {
+				if m["t"] == "app-rejected" && m["app"] == id {
+					placed["reason"] = m["reason"]
+				}
+			}
+			line["placed"] = placed
+		}
 		st := d.core.s.dump()
 		st["parts"] = d.dumpParts()
 		line["st"] = st
@@ -740,6 +797,10 @@ func (c *Ctx) rlInitial() *configs.SchedulerConfig {
 	if c.chance(0.4) {
 		root.Queues = append(root.Queues, c.rlLeaf("d", 1))
 	}
+	if c.chance(0.55) {
+		// the queue the placement manager falls back to when no rule places an application
+		root.Queues = append(root.Queues, c.rlLeaf("default", 1))
+	}
 	if c.chance(0.4) {
 		e := configs.QueueConfig{Name: "e", Parent: true, Properties: c.rlProps(0.3)}
 		e1 := configs.QueueConfig{Name: c.one([]string{"e1", "E1"}), Parent: true}
@@ -773,10 +834,25 @@ func (c *Ctx) rlPartSettings(p *configs.PartitionConfig) {
 	if c.chance(0.5) {
 		p.NodeSortPolicy.Type = c.one([]string{"binpacking", "fair"})
 	}
+	if c.chance(0.4) {
+		w := map[string]float64{}
+		for _, k := range []string{"cpu", "mem", "vcore"} {
+			if c.chance(0.5) {
+				w[k] = []float64{0, 0.5, 1, 2, 3.5}[c.pick(5)]
+			}
+		}
+		if len(w) > 0 {
+			p.NodeSortPolicy.ResourceWeights = w
+		}
+	}
 	p.Preemption = configs.PartitionPreemptionConfig{}
 	if c.chance(0.6) {
 		b := c.chance(0.7)
 		p.Preemption.Enabled = &b
+	}
+	if c.chance(0.3) {
+		b := c.chance(0.5)
+		p.Preemption.QuotaPreemptionEnabled = &b
 	}
 }
 
@@ -827,7 +903,7 @@ func hasChild(q *configs.QueueConfig, name string) bool {
 	return false
 }
 
-var rlNewNames = []string{"a", "b", "c", "d", "e", "f", "n1", "n2", "dyn1", "dyn2", "dyn3", "sub", "b1", "b2", "b3", "X1", "root"}
+var rlNewNames = []string{"a", "b", "c", "d", "e", "f", "default", "n1", "n2", "dyn1", "dyn2", "dyn3", "sub", "b1", "b2", "b3", "X1", "root"}
 
 // mutate applies one random mutation to the partition named part of conf; returns a label for the statistics
 func (d *reloadDrv) mutate(conf *configs.SchedulerConfig, pi int) string {
@@ -1002,7 +1078,13 @@ func (d *reloadDrv) mutate(conf *configs.SchedulerConfig, pi int) string {
 		return "limits"
 	default: // partition settings and placement rules
 		c.rlPartSettings(p)
-		switch c.pick(4) {
+		switch c.pick(7) {
+		case 4:
+			p.PlacementRules = nil
+		case 5:
+			p.PlacementRules = []configs.PlacementRule{{Name: "user", Create: false}, {Name: "provided", Create: false}}
+		case 6:
+			p.PlacementRules = []configs.PlacementRule{{Name: "tag", Value: "namespace", Create: false}, {Name: "provided", Create: c.chance(0.5)}}
 		case 0:
 			p.PlacementRules = []configs.PlacementRule{{Name: "provided", Create: true}}
 		case 1:
@@ -1079,6 +1161,76 @@ func (d *reloadDrv) poison(conf *configs.SchedulerConfig, pi int) string {
 	}
 }
 
+// lateRules makes the update one that is rejected LATE: the placement rule list passes the validator (rule names are
+// only checked to be identifiers, the dry run swallows the error of the placement manager) and is refused by
+// AppPlacementManager.UpdateRules in updatePartitionDetails — while the same configuration changes other settings of the
+// partition: node sorting policy (type, resource weights), preemption flags, limits, queues
+func (d *reloadDrv) lateRules(conf *configs.SchedulerConfig, pi int) string {
+	c := d.c
+	p := &conf.Partitions[pi]
+	cands := [][]configs.PlacementRule{
+		{{Name: "providedd", Create: true}},
+		{{Name: "provided", Create: true}, {Name: "foo"}},
+		{{Name: "user", Create: true, Parent: &configs.PlacementRule{Name: "fixedd", Value: "grp", Create: true}}, {Name: "provided", Create: true}},
+		{{Name: "tag", Create: true}},
+		{{Name: "provided"}, {Name: "tag"}},
+		{{Name: "fixed", Create: true}},
+		{{Name: "Provided_1"}},
+		{{Name: "provided", Create: true}, {Name: "recovery"}},
+		{{Name: "user", Parent: &configs.PlacementRule{Name: "tag", Create: true}}},
+	}
+	start := c.pick(len(cands))
+	label := "late-rules-none"
+	for i := range cands {
+		p.PlacementRules = cands[(start+i)%len(cands)]
+		if _, err := configs.LoadSchedulerConfigFromByteArray([]byte(confYAML(conf, 0))); err == nil && rulesRefused(p.PlacementRules) {
+			label = "late-rules"
+			break
+		}
+		p.PlacementRules = nil
+	}
+	// the node sorting policy always changes: the type flips, or the weights are new, or both
+	flip := c.chance(0.7)
+	if flip {
+		if strings.EqualFold(p.NodeSortPolicy.Type, "binpacking") {
+			p.NodeSortPolicy.Type = c.one([]string{"fair", ""})
+		} else {
+			p.NodeSortPolicy.Type = "binpacking"
+		}
+	}
+	if !flip || c.chance(0.5) {
+		w := map[string]float64{"cpu": []float64{0.25, 1.5, 4, 7}[c.pick(4)]}
+		if old, ok := p.NodeSortPolicy.ResourceWeights["cpu"]; ok && old == w["cpu"] {
+			w["cpu"] = old + 1
+		}
+		if c.chance(0.5) {
+			w["mem"] = float64(c.pick(4))
+		}
+		p.NodeSortPolicy.ResourceWeights = w
+	}
+	if c.chance(0.5) {
+		b := !(p.Preemption.Enabled == nil || *p.Preemption.Enabled)
+		p.Preemption.Enabled = &b
+	}
+	if c.chance(0.3) {
+		b := !(p.Preemption.QuotaPreemptionEnabled != nil && *p.Preemption.QuotaPreemptionEnabled)
+		p.Preemption.QuotaPreemptionEnabled = &b
+	}
+	if c.chance(0.4) {
+		p.Queues[0].Limits = c.rlLimits()
+	}
+	// queue changes in the same configuration; a mutation that replaces the rule list again is undone
+	for n := c.pick(3); n > 0; n-- {
+		rules := p.PlacementRules
+		sortPolicy, pre := p.NodeSortPolicy, p.Preemption
+		if d.mutate(conf, pi) == "partition-settings" {
+			p = &conf.Partitions[pi]
+			p.PlacementRules, p.NodeSortPolicy, p.Preemption = rules, sortPolicy, pre
+		}
+	}
+	return label
+}
+
 // ---------------------------------------------------------------- generator: histories
 
 func (d *reloadDrv) leaves() []string {
@@ -1131,6 +1283,8 @@ func (d *reloadDrv) genReload() map[string]interface{} {
 		if c.chance(0.5) {
 			d.mutate(conf, 0)
 		}
+	case k < 37:
+		label = d.lateRules(conf, 0)
 	default:
 		n := 1 + c.pick(3)
 		labels := []string{}
@@ -1154,6 +1308,132 @@ func (d *reloadDrv) genReload() map[string]interface{} {
 		c.stat("reload:" + l)
 	}
 	return map[string]interface{}{"op": "reload", "via": via, "conf": confToJSON(conf), "pad": pad, "kind": label}
+}
+
+// drainScenario: a configured leaf that holds an application is dropped by an update (it goes Draining) and applications
+// are submitted afterwards that end up at it: naming it directly (qualified or not), through a tag, through a fixed rule
+// that comes last, or not placed by any rule so that the placement manager falls back to root.default — preferably the
+// dropped leaf is root.default itself. The rule list of the update is one in which the deciding rule is the last one.
+func (d *reloadDrv) drainScenario(s *shimSim, emit func(map[string]interface{})) {
+	c := d.c
+	if d.core.s == nil || len(d.conf.Partitions) == 0 {
+		return
+	}
+	_, leafs := d.liveQueues()
+	live := map[string]bool{}
+	for _, l := range leafs {
+		live[l] = true
+	}
+	var cands []string
+	for _, l := range d.leaves() {
+		if q := d.core.s.part.GetQueue(l); l != "root" && live[l] && q != nil && q.IsManaged() && !q.IsDraining() && strings.Count(l, ".") == 1 {
+			cands = append(cands, l)
+		}
+	}
+	if len(cands) == 0 {
+		c.stat("drain-scenario:no-leaf")
+		return
+	}
+	victim := c.one(cands)
+	if live["root.default"] && c.chance(0.75) {
+		for _, l := range cands {
+			if l == "root.default" {
+				victim = l
+			}
+		}
+	}
+	submit := func(q string, tags map[string]string) string {
+		id := fmt.Sprintf("app-%d", len(s.appList)+1)
+		op := map[string]interface{}{"op": "app-add", "id": id, "queue": q, "user": c.one(rlUsers), "groups": "dev"}
+		if tags != nil {
+			op["tags"] = tags
+		}
+		emit(op)
+		s.appList = append(s.appList, id)
+		s.apps[id] = true
+		return id
+	}
+	// an application in the leaf (one may be there already)
+	vq := d.core.s.part.GetQueue(victim)
+	if len(vq.GetCopyOfApps()) == 0 || c.chance(0.3) {
+		id := submit(victim, nil)
+		if d.core.s == nil {
+			return
+		}
+		if app := d.core.s.part.GetApplication(id); app == nil || app.GetQueuePath() != victim {
+			c.stat("drain-scenario:no-app")
+			if len(vq.GetCopyOfApps()) == 0 {
+				return
+			}
+		}
+	}
+	// the update: the leaf is gone, the rule list is one whose last rule decides
+	conf := cloneConf(d.conf)
+	p := &conf.Partitions[0]
+	root := &p.Queues[0]
+	name := victim[len("root."):]
+	for i := range root.Queues {
+		if strings.EqualFold(root.Queues[i].Name, name) {
+			d.dropped = append(d.dropped, droppedQ{part: p.Name, parent: "root", q: cloneConfQ(root.Queues[i])})
+			root.Queues = append(root.Queues[:i:i], root.Queues[i+1:]...)
+			break
+		}
+	}
+	kind := c.pick(7)
+	switch kind {
+	case 0:
+		p.PlacementRules = nil
+	case 1:
+		p.PlacementRules = []configs.PlacementRule{{Name: "provided", Create: false}}
+	case 2:
+		p.PlacementRules = []configs.PlacementRule{{Name: "user", Create: false}, {Name: "provided", Create: false}}
+	case 3:
+		p.PlacementRules = []configs.PlacementRule{{Name: "provided", Create: false}, {Name: "fixed", Value: victim, Create: true}}
+	case 4:
+		p.PlacementRules = []configs.PlacementRule{{Name: "provided", Create: true}}
+	case 5:
+		p.PlacementRules = []configs.PlacementRule{{Name: "tag", Value: "namespace", Create: false}, {Name: "provided", Create: false}}
+	default:
+		p.PlacementRules = []configs.PlacementRule{{Name: "tag", Value: "namespace", Create: false}}
+	}
+	c.stat(fmt.Sprintf("drain-scenario:rules-%d", kind))
+	via := "event"
+	if c.chance(0.3) {
+		via = "direct"
+	}
+	emit(map[string]interface{}{"op": "reload", "via": via, "conf": confToJSON(conf), "pad": d.pad, "kind": "drain-scenario"})
+	if d.core.s == nil {
+		return
+	}
+	if q := d.core.s.part.GetQueue(victim); q == nil || !q.IsDraining() {
+		c.stat("drain-scenario:not-draining")
+		return
+	}
+	c.stat("drain-scenario:draining")
+	if victim == "root.default" {
+		c.stat("drain-scenario:default-draining")
+	}
+	// the submissions
+	n := 2 + c.pick(3)
+	for i := 0; i < n && d.core.s != nil; i++ {
+		switch c.pick(6) {
+		case 0:
+			submit(victim, nil)
+		case 1:
+			submit(name, nil)
+		case 2:
+			submit(c.one([]string{"root.nosuch.q", "root.nosuch", "nosuch"}), nil)
+		case 3:
+			submit("", nil)
+		case 4:
+			submit(c.one([]string{"", "root.nosuch"}), map[string]string{"namespace": c.one([]string{name, victim, "nosuch"})})
+		default:
+			submit(c.one([]string{"root.b", "root"}), nil)
+		}
+		if c.chance(0.2) {
+			emit(map[string]interface{}{"op": "clean"})
+		}
+	}
 }
 
 var rlDynQueues = []string{"root.dyn1", "root.b.dyn2", "root.c.dyn3", "root.c.sub.leaf", "root.e.e1.dyn4", "root.a.x", "root.dyn1.deep"}
@@ -1286,6 +1566,8 @@ func reloadHistory(c *Ctx, d *reloadDrv) {
 			}
 		case p < 75:
 			emit(map[string]interface{}{"op": "clean"})
+		case p < 79:
+			d.drainScenario(s, emit)
 		default:
 			if c.chance(0.5) {
 				// a scheduling cycle right before the update: allocations and reservations are fresh
@@ -1330,7 +1612,7 @@ func reloadHistory(c *Ctx, d *reloadDrv) {
 }
 
 var reloadInputKeys = map[string]bool{"st": true, "msgs": true, "c": true, "out": true, "panic": true, "error": true, "hang": true, "cfg": true, "fresh": true,
-	"yaml": true, "valid": true, "invalid": true, "rules": true, "probes": true, "cycles": true}
+	"yaml": true, "valid": true, "invalid": true, "rules": true, "probes": true, "cycles": true, "placed": true}
 
 func runReload(c *Ctx) {
 	d := &reloadDrv{c: c, core: &coreDrv{c: c, id: "reload"}}
